@@ -103,6 +103,9 @@ type configIn struct {
 }
 
 type input struct {
+	Kind     string      `json:"kind,omitempty"` // "" (series query) | part
+	MaxGap   uint64      `json:"part_max_gap,omitempty"`
+	Ranges   [][2]uint64 `json:"ranges,omitempty"`
 	Series   []seriesIn  `json:"series"`
 	Ext      []string    `json:"ext"`
 	Matchers []matcherIn `json:"matchers"`
@@ -471,6 +474,9 @@ func run(raw json.RawMessage) (common.Case, error) {
 		return common.Case{}, err
 	}
 	var c common.Case
+	if in.Kind == "part" {
+		return runPart(in)
+	}
 	bb, err := buildBlock(in)
 	if err != nil {
 		return c, err
@@ -551,6 +557,51 @@ func run(raw json.RawMessage) (common.Case, error) {
 	c.Nontrivial = len(oracle) >= 1 && len(oracle) < len(bb.series) && len(in.Matchers) >= 2
 	c.Class = fmt.Sprintf("matchers=%d/selected=%s", len(in.Matchers), selBucket(len(oracle), len(bb.series)))
 	return c, nil
+}
+
+// gapBasedPartitioner.Partition on sorted ranges
+func runPart(in input) (common.Case, error) {
+	var c common.Case
+	c.Class = "part"
+	parts := store.NewGapBasedPartitioner(in.MaxGap).Partition(len(in.Ranges), func(i int) (uint64, uint64) {
+		return in.Ranges[i][0], in.Ranges[i][1]
+	})
+	var rs, ps []string
+	for _, r := range in.Ranges {
+		rs = append(rs, common.Pair(common.ZU(r[0]), common.ZU(r[1])))
+	}
+	next := 0
+	for _, p := range parts {
+		ps = append(ps, common.Tuple(common.ZU(p.Start), common.ZU(p.End), common.Nat(p.ElemRng[0]), common.Nat(p.ElemRng[1])))
+		if p.ElemRng[0] != next || p.ElemRng[1] <= p.ElemRng[0] {
+			c.GoPred, c.Sig = "element ranges of the parts are not contiguous", "part-not-contiguous"
+		}
+		for i := p.ElemRng[0]; i < p.ElemRng[1] && i < len(in.Ranges); i++ {
+			if in.Ranges[i][0] < p.Start || in.Ranges[i][1] > p.End {
+				c.GoPred, c.Sig = fmt.Sprintf("range %d is not inside its part", i), "part-not-covering"
+			}
+		}
+		next = p.ElemRng[1]
+	}
+	if next != len(in.Ranges) && c.GoPred == "" {
+		c.GoPred, c.Sig = "parts do not cover all ranges", "part-not-covering"
+	}
+	c.Coq = common.App("CPart", common.ZU(in.MaxGap), common.List(rs), common.List(ps))
+	c.Obs = parts
+	c.Nontrivial = len(parts) >= 2 && len(parts) < len(in.Ranges)
+	return c, nil
+}
+
+func genPart(r *rand.Rand) input {
+	in := input{Kind: "part", MaxGap: common.Pick(r, uint64(0), 1, 5, 50, 1000)}
+	n := r.Intn(25)
+	var cur uint64
+	for i := 0; i < n; i++ {
+		cur += uint64(r.Intn(int(in.MaxGap)*2 + 3))
+		l := uint64(r.Intn(60))
+		in.Ranges = append(in.Ranges, [2]uint64{cur, cur + l})
+	}
+	return in
 }
 
 func selBucket(n, total int) string {
@@ -714,6 +765,9 @@ func genConfigs(r *rand.Rand) []configIn {
 func gen(r *rand.Rand, tier string, n int) []any {
 	var out []any
 	for len(out) < n {
+		for q := 0; q < 2 && len(out) < n; q++ {
+			out = append(out, genPart(r))
+		}
 		series, ext := genBlock(r, tier)
 		perBlock := 6
 		for q := 0; q < perBlock && len(out) < n; q++ {
@@ -728,7 +782,24 @@ func gen(r *rand.Rand, tier string, n int) []any {
 			if !hasNonExt {
 				continue
 			}
-			switch r.Intn(5) {
+			switch r.Intn(6) {
+			case 5: // exactly on a chunk boundary of some series (first sample, last sample of the first chunk, first of the second)
+				sp := series[r.Intn(len(series))]
+				n := sp.Count
+				if n > 120 {
+					n = 120
+				}
+				first, lastOfFirst := sp.Start, sp.Start+int64(n-1)*sp.Step
+				switch r.Intn(4) {
+				case 0:
+					in.Mint, in.Maxt = lastOfFirst, lastOfFirst+int64(r.Intn(3))*sp.Step
+				case 1:
+					in.Mint, in.Maxt = first-int64(r.Intn(30)), first
+				case 2:
+					in.Mint, in.Maxt = lastOfFirst+1, lastOfFirst+sp.Step
+				default:
+					in.Mint, in.Maxt = lastOfFirst+sp.Step, lastOfFirst+sp.Step
+				}
 			case 0:
 				in.Mint, in.Maxt = -1<<40, 1<<40
 			case 1:
